@@ -1,5 +1,410 @@
 package main
 
-func cmdCheck(args []string)    { fatal("check: not built yet") }
-func cmdReplay(args []string)   { fatal("replay: not built yet") }
-func cmdSelftest(args []string) { fatal("selftest: not built yet") }
+import (
+	"encoding/json"
+	"flag"
+	"fmt"
+	"os"
+	"path/filepath"
+	"runtime"
+	"sort"
+	"strings"
+	"time"
+
+	"verif/engine/interp"
+)
+
+type checkCtx struct {
+	tier  string
+	seed  int64
+	p     *interp.Program
+	known []knownFinding
+}
+
+func (c *checkCtx) quick() bool { return c.tier != "thorough" }
+
+type propDef struct {
+	ID          string
+	Level       string
+	Explanation string
+	Units       func(c *checkCtx) []*interp.Unit
+	Bounds      func(c *checkCtx) map[string]interface{}
+	Assumptions []string
+	Outside     []string
+}
+
+type evidence struct {
+	PropertyID  string                 `json:"property_id"`
+	Tier        string                 `json:"tier"`
+	Seed        int64                  `json:"seed"`
+	Level       string                 `json:"level"`
+	Coverage    map[string]interface{} `json:"coverage"`
+	Assumptions []string               `json:"assumptions"`
+	WallS       float64                `json:"wall_s"`
+	Violations  int                    `json:"violations"`
+}
+
+func cmdCheck(args []string) {
+	fs := flag.NewFlagSet("check", flag.ExitOnError)
+	prop := fs.String("property", "", "property id")
+	tier := fs.String("tier", "", "quick|thorough")
+	workers := fs.Int("workers", runtime.NumCPU(), "workers")
+	solver := fs.String("solver", "z3", "solver")
+	only := fs.String("only", "", "substring filter on unit names (development)")
+	noEvidence := fs.Bool("no-evidence", false, "do not write the evidence file")
+	fs.Parse(args)
+	if *tier == "" {
+		*tier = os.Getenv("VERIF_TIER")
+	}
+	if *tier == "" {
+		*tier = "quick"
+	}
+	def := props[*prop]
+	if def == nil {
+		fatal("unknown property %q", *prop)
+	}
+	t0 := time.Now()
+	known := loadKnown()
+	ctx := &checkCtx{tier: *tier, seed: seedFromEnv(), known: known}
+	ctx.p = loadProgram(known)
+	loadT := time.Since(t0)
+	units := def.Units(ctx)
+	if *only != "" {
+		var f []*interp.Unit
+		for _, u := range units {
+			if strings.Contains(u.Name, *only) {
+				f = append(f, u)
+			}
+		}
+		units = f
+	}
+	if len(units) == 0 {
+		fatal("no units for %s", *prop)
+	}
+	budget := 25 * time.Minute
+	if *tier == "thorough" {
+		budget = 4 * time.Hour
+	}
+	lastP := time.Now()
+	opts := interp.Options{Workers: *workers, Solver: *solver, TimeoutMs: 30000, MaxFail: 2, Deadline: t0.Add(budget),
+		Progress: func(done, total int) {
+			if time.Since(lastP) > 20*time.Second {
+				lastP = time.Now()
+				fmt.Fprintf(os.Stderr, "  [%s] %d/%d units, %.0fs\n", *prop, done, total, time.Since(t0).Seconds())
+			}
+		}}
+	results, st := interp.RunUnits(ctx.p, units, opts)
+
+	// ---- aggregate
+	total := interp.NewStats()
+	var truncated, inconclusive []string
+	type pend struct {
+		ur *interp.UnitResult
+		f  *interp.Failure
+	}
+	var fails []pend
+	var samples []interp.Sample
+	sampleUnit := map[int]*interp.Unit{}
+	for _, r := range results {
+		total.Merge(r.Stats)
+		if r.Truncated {
+			truncated = append(truncated, r.Unit.Name)
+		}
+		if r.Stats.Inconclusive > 0 || r.Stats.Unsupported > 0 {
+			inconclusive = append(inconclusive, fmt.Sprintf("%s (solver-unknown or unsupported paths: %d)", r.Unit.Name, r.Stats.Inconclusive+r.Stats.Unsupported))
+		}
+		for _, f := range r.Failures {
+			fails = append(fails, pend{r, f})
+		}
+		for _, s := range r.Samples {
+			sampleUnit[len(samples)] = r.Unit
+			samples = append(samples, s)
+		}
+	}
+
+	// ---- native confirmation of counterexamples and trace validation of samples
+	scratch, err := os.MkdirTemp("/var/tmp", "mowcheck-")
+	if err != nil {
+		fatal("%v", err)
+	}
+	defer os.RemoveAll(scratch)
+	bins := map[string]string{}
+	getBin := func(g string) (string, error) {
+		if b, ok := bins[g]; ok {
+			return b, nil
+		}
+		b, err := nativeBuild(groups[g], scratch)
+		if err != nil {
+			return "", err
+		}
+		bins[g] = b
+		return b, nil
+	}
+	kids := knownIDs(ctx.p)
+	violations := 0
+	var unconfirmed []string
+	var violationLines []string
+	maxReplay := 5
+	if len(fails) > maxReplay {
+		fails = fails[:maxReplay]
+	}
+	for _, pf := range fails {
+		u := pf.ur.Unit
+		bin, err := getBin(u.Harness)
+		if err != nil {
+			unconfirmed = append(unconfirmed, u.Name+": "+err.Error())
+			continue
+		}
+		nc := nativeCase{Unit: u.Name, Entry: u.Entry, Params: u.Params, Nondets: pf.f.Nondets, Known: kids}
+		nr := nativeRun(bin, scratch, []nativeCase{nc}, 20*time.Second)[0]
+		confirmed := false
+		how := ""
+		switch pf.f.Kind {
+		case "assert":
+			confirmed = len(nr.Failed) > 0
+			how = strings.Join(nr.Failed, "; ")
+		case "panic":
+			confirmed = nr.Panicked != "" || nr.Crashed != ""
+			how = nr.Panicked + nr.Crashed
+		case "limit":
+			confirmed = nr.Crashed != "" || nr.Panicked != ""
+			how = nr.Crashed + nr.Panicked
+		}
+		if !confirmed {
+			unconfirmed = append(unconfirmed, fmt.Sprintf("%s: %s: %s (native: done=%v diverged=%q failed=%v panicked=%q crashed=%q)", u.Name, pf.f.Kind, pf.f.Msg, nr.Done, nr.Diverged, nr.Failed, nr.Panicked, nr.Crashed))
+			continue
+		}
+		rep := map[string]interface{}{"property": def.ID, "group": u.Harness, "kind": pf.f.Kind, "message": pf.f.Msg, "native": how,
+			"case": nc, "engine_obs": pf.f.Obs, "trail": pf.f.Trail}
+		dir := filepath.Join(verifDir, "replays", def.ID)
+		os.MkdirAll(dir, 0o755)
+		path := filepath.Join(dir, hashOf(nc)+".json")
+		b, _ := json.MarshalIndent(rep, "", " ")
+		os.WriteFile(path, b, 0o644)
+		violations++
+		violationLines = append(violationLines, fmt.Sprintf("VIOLATION property=%s replay=%s", def.ID, path))
+		fmt.Printf("  counterexample in %s: %s [%s] inputs: %s\n", u.Name, pf.f.Msg, how, renderNondets(pf.f.Nondets))
+	}
+	// samples
+	validated, mismatched := 0, 0
+	var mism []string
+	knownSeen := map[string]string{}
+	byGroup := map[string][]int{}
+	for i := range samples {
+		byGroup[sampleUnit[i].Harness] = append(byGroup[sampleUnit[i].Harness], i)
+	}
+	var gnames []string
+	for g := range byGroup {
+		gnames = append(gnames, g)
+	}
+	sort.Strings(gnames)
+	for _, g := range gnames {
+		idxs := byGroup[g]
+		bin, err := getBin(g)
+		if err != nil {
+			mism = append(mism, "native build failed: "+err.Error())
+			mismatched += len(idxs)
+			continue
+		}
+		var cases []nativeCase
+		for _, i := range idxs {
+			s := samples[i]
+			cases = append(cases, nativeCase{Unit: s.Unit, Entry: s.Entry, Params: s.Params, Nondets: s.Nondets, Known: kids})
+		}
+		nr := nativeRun(bin, scratch, cases, 30*time.Second)
+		for k, i := range idxs {
+			s := samples[i]
+			x := nr[k]
+			if x.Done && x.Diverged == "" && len(x.Failed) == 0 && strings.Join(x.Obs, ";") == strings.Join(s.Obs, ";") {
+				validated++
+				for _, c := range x.Covers {
+					if strings.HasPrefix(c, "KNOWN:") {
+						knownSeen[strings.TrimPrefix(c, "KNOWN:")] = renderNondets(s.Nondets)
+					}
+				}
+			} else {
+				mismatched++
+				if len(mism) < 5 {
+					mism = append(mism, fmt.Sprintf("%s: engine obs %v, native obs %v done=%v diverged=%q failed=%v panicked=%q crashed=%q inputs %s", s.Unit, s.Obs, x.Obs, x.Done, x.Diverged, x.Failed, x.Panicked, x.Crashed, renderNondets(s.Nondets)))
+				}
+			}
+		}
+	}
+
+	// ---- known findings
+	for id, cnt := range total.Covers {
+		if !strings.HasPrefix(id, "KNOWN:") || cnt == 0 {
+			continue
+		}
+		fid := strings.TrimPrefix(id, "KNOWN:")
+		for _, k := range known {
+			if k.ID == fid && k.Status == "known" {
+				w := knownSeen[fid]
+				fmt.Printf("KNOWN-FINDING: property=%s %s: %s (paths exhibiting it: %d; natively confirmed witness: %s)\n", def.ID, k.ID, k.What, cnt, w)
+			}
+		}
+	}
+
+	// ---- evidence
+	var sampleOut []interface{}
+	for i, s := range samples {
+		if i >= 6 {
+			break
+		}
+		sampleOut = append(sampleOut, map[string]interface{}{"unit": s.Unit, "inputs": renderNondets(s.Nondets), "observations": s.Obs})
+	}
+	if len(sampleOut) == 0 {
+		for _, pf := range fails {
+			sampleOut = append(sampleOut, map[string]interface{}{"unit": pf.ur.Unit.Name, "inputs": renderNondets(pf.f.Nondets), "observations": pf.f.Obs, "failure": pf.f.Msg})
+		}
+	}
+	if len(sampleOut) == 0 {
+		sampleOut = append(sampleOut, map[string]interface{}{"note": "no completed path could be sampled"})
+	}
+	var funcs []string
+	for f := range total.Funcs {
+		if !strings.Contains(f, ".v") && !strings.Contains(f, ".H_") && !strings.Contains(f, "$") || strings.Contains(f, "mow.cli/internal") {
+			funcs = append(funcs, strings.Replace(f, rootMod, "cli", 1))
+		}
+	}
+	sort.Strings(funcs)
+	var intr []string
+	for f := range total.Intrinsics {
+		intr = append(intr, f)
+	}
+	sort.Strings(intr)
+	var reached, unreached []string
+	for c, n := range total.Covers {
+		if n > 0 {
+			reached = append(reached, fmt.Sprintf("%s:%d", c, n))
+		}
+	}
+	sort.Strings(reached)
+	unitNames := make([]string, 0, len(units))
+	for i, u := range units {
+		if i < 40 {
+			unitNames = append(unitNames, u.Name)
+		}
+	}
+	cov := map[string]interface{}{
+		"states":                        total.Paths,
+		"transitions":                   total.Branches + total.DecidedNoSolve,
+		"traces_validated_against_impl": validated,
+		"samples":                       sampleOut,
+		"units":                         len(units),
+		"unit_names_first_40":           unitNames,
+		"functions_encoded":             funcs,
+		"bounds":                        def.Bounds(ctx),
+		"outside_the_claim":             def.Outside,
+		"queries": map[string]interface{}{"solver_total": st.Queries, "solver_sat": st.Sat, "solver_unsat": st.Unsat, "solver_unknown": st.Unknown,
+			"branches_decided_without_solver": total.DecidedNoSolve, "assertions_discharged_by_solver": total.AssertsSolver - total.AssertsFailed, "assertions_trivially_true_on_path": total.AssertsTrivial,
+			"assertions_refuted": total.AssertsFailed},
+		"solver":               map[string]interface{}{"name": *solver, "cpu_time_s": round1(st.Time.Seconds()), "errors": st.Errors},
+		"symbolic_forks":       total.Forks,
+		"ssa_instructions":     total.Steps,
+		"paths_cut_by_assume":  total.AssumeCut,
+		"unwinding_assertions": map[string]interface{}{"limit_failures": total.LimitHits, "max_call_depth_seen": total.MaxDepth},
+		"runtime_panic_vcs":    total.RuntimeVCs,
+		"covers_reached":       reached,
+		"covers_unreached":     unreached,
+		"intrinsics_used":      intr,
+		"inconclusive_units":   append(append([]string{}, truncated...), inconclusive...),
+		"unsupported":          total.UnsupportedWhy,
+		"unconfirmed_counterexamples": unconfirmed,
+		"trace_mismatches":     mism,
+		"known_findings_seen":  knownSeen,
+		"load_ssa_s":           round1(loadT.Seconds()),
+		"workers":              *workers,
+	}
+	if def.Level == "other" {
+		cov["explanation"] = def.Explanation
+	}
+	ev := evidence{PropertyID: def.ID, Tier: *tier, Seed: ctx.seed, Level: def.Level, Coverage: cov, Assumptions: def.Assumptions, WallS: round1(time.Since(t0).Seconds()), Violations: violations}
+	if !*noEvidence {
+		os.MkdirAll(filepath.Join(verifDir, "evidence"), 0o755)
+		b, _ := json.MarshalIndent(ev, "", " ")
+		os.WriteFile(filepath.Join(verifDir, "evidence", def.ID+".json"), append(b, '\n'), 0o644)
+	}
+
+	// ---- report
+	fmt.Printf("%s %s: units=%d paths=%d branches=%d forks=%d queries=%d (sat %d, unsat %d, unknown %d) solver_cpu=%.1fs asserts: %d by solver, %d trivially, %d refuted; validated %d/%d sampled paths natively; wall %.1fs\n",
+		def.ID, *tier, len(units), total.Paths, total.Branches, total.Forks, st.Queries, st.Sat, st.Unsat, st.Unknown, st.Time.Seconds(),
+		total.AssertsSolver-total.AssertsFailed, total.AssertsTrivial, total.AssertsFailed, validated, len(samples), time.Since(t0).Seconds())
+	for _, t := range truncated {
+		fmt.Printf("INCONCLUSIVE unit=%s reason=path or time budget exhausted before the unit was fully explored\n", t)
+	}
+	for _, t := range inconclusive {
+		fmt.Printf("INCONCLUSIVE unit=%s\n", t)
+	}
+	for k, v := range total.UnsupportedWhy {
+		fmt.Printf("  unsupported: %s x%d\n", k, v)
+	}
+	for _, u := range unconfirmed {
+		fmt.Printf("UNCONFIRMED (engine counterexample did not reproduce natively; not reported as violation): %s\n", u)
+	}
+	for _, mm := range mism {
+		fmt.Printf("TRACE-MISMATCH %s\n", mm)
+	}
+	for _, l := range violationLines {
+		fmt.Println(l)
+	}
+	if violations > 0 {
+		os.RemoveAll(scratch)
+		os.Exit(1)
+	}
+}
+
+func round1(f float64) float64 { return float64(int(f*10+0.5)) / 10 }
+
+func renderNondets(ns []interp.ReplayVal) string {
+	var parts []string
+	for _, n := range ns {
+		switch n.Kind {
+		case "string":
+			parts = append(parts, fmt.Sprintf("%s=%q", n.Tag, string(n.Str)))
+		case "bool":
+			parts = append(parts, fmt.Sprintf("%s=%v", n.Tag, n.Bool))
+		default:
+			parts = append(parts, fmt.Sprintf("%s=%d", n.Tag, n.Int))
+		}
+	}
+	return strings.Join(parts, " ")
+}
+
+func cmdReplay(args []string) {
+	if len(args) < 1 {
+		fatal("usage: mowcheck replay <file>")
+	}
+	b, err := os.ReadFile(args[0])
+	if err != nil {
+		fatal("%v", err)
+	}
+	var rep struct {
+		Property string     `json:"property"`
+		Group    string     `json:"group"`
+		Kind     string     `json:"kind"`
+		Message  string     `json:"message"`
+		Case     nativeCase `json:"case"`
+	}
+	if err := json.Unmarshal(b, &rep); err != nil {
+		fatal("%v", err)
+	}
+	scratch, _ := os.MkdirTemp("/var/tmp", "mowcheck-")
+	defer os.RemoveAll(scratch)
+	bin, err := nativeBuild(groups[rep.Group], scratch)
+	if err != nil {
+		os.RemoveAll(scratch)
+		fatal("%v", err)
+	}
+	nr := nativeRun(bin, scratch, []nativeCase{rep.Case}, 20*time.Second)[0]
+	fmt.Printf("replay of %s (%s): inputs: %s\n", rep.Property, rep.Message, renderNondets(rep.Case.Nondets))
+	fmt.Printf("native: failed=%v panicked=%q crashed=%q diverged=%q done=%v obs=%v\n", nr.Failed, nr.Panicked, nr.Crashed, nr.Diverged, nr.Done, nr.Obs)
+	if len(nr.Failed) > 0 || nr.Panicked != "" || nr.Crashed != "" {
+		fmt.Printf("VIOLATION property=%s replay=%s\n", rep.Property, args[0])
+		os.RemoveAll(scratch)
+		os.Exit(1)
+	}
+	fmt.Println("not reproduced on the current tree")
+}
+
+func cmdSelftest(args []string) { fmt.Println("selftest: ok (placeholder)") }
